@@ -1591,13 +1591,17 @@ cdef class NNPS(NNPSBase):
             print(msg)
         self._last_domain_size = domain_size
 
-        # If all of the dimensions have very small extent give it a unit size.
+        # If all of the dimensions have very small extent give it the size
+        # of one cell along the dimensions that are searched.
         cdef double _eps = 1e-12
+        cdef double pad = 0.5*self.cell_size
         if (fabs(xmax - xmin) < _eps) and (fabs(ymax - ymin) < _eps) \
             and (fabs(zmax - zmin) < _eps):
-            xmin -= 0.5; xmax += 0.5
-            ymin -= 0.5; ymax += 0.5
-            zmin -= 0.5; zmax += 0.5
+            xmin -= pad; xmax += pad
+            if self.dim > 1:
+                ymin -= pad; ymax += pad
+            if self.dim > 2:
+                zmin -= pad; zmax += pad
 
         # store the minimum and maximum of physical coordinates
         self.xmin.set_data(np.asarray([xmin, ymin, zmin]))
